@@ -91,9 +91,27 @@ Fixpoint take {A} (n : nat) (xs : list A) : list A * list A :=
   | S k, x :: r => let '(a, b) := take k r in (x :: a, b)
   end.
 
-(* one walk of at most n steps, following the TLA+ model's successor: (first mismatch of each label
-   met, labels whose step committed in order) *)
-Fixpoint walk (n : nat) (W : wsys) (st : gstate) (rnd : list nat) (trace : list string)
+Definition proc_ids (W : wsys) (st : gstate) (oset : option expr) : res (list value) :=
+  match oset with
+  | None => Ok [VDefault]
+  | Some s => do v <- eval (w_dtla W) EVAL_FUEL (env_of W st VDefault) (subst [] None [] s0 [] s); as_set v
+  end.
+
+(* every (process entry, self) whose pc is one of the focus labels "proc.label" *)
+Definition focus_candidates (W : wsys) (st : gstate) (focus : list string)
+  : list ((string * (option expr * list (string * (dtree * dtree)))) * value) :=
+  flat_map (fun pe =>
+              match proc_ids W st (fst (snd pe)) with
+              | Ok ids => flat_map (fun self => match e_loc (env_of W st self) "pc" with
+                                                | VStr lbl => if mem (fst pe ++ "." ++ lbl) focus then [(pe, self)] else []
+                                                | _ => [] end) ids
+              | Err _ => []
+              end) (w_procs W).
+
+(* one walk of at most n attempts, following the TLA+ model's successor: (first mismatch of each label met,
+   labels whose step committed in order). Every other attempt goes to a process standing at a focus label
+   (the labels whose obligation broke), when there is one. *)
+Fixpoint walk (n : nat) (W : wsys) (focus : list string) (st : gstate) (rnd : list nat) (trace : list string)
          (bad : list (string * string)) : list (string * string) * list string :=
   match n with
   | O => (rev bad, rev trace)
@@ -101,48 +119,49 @@ Fixpoint walk (n : nat) (W : wsys) (st : gstate) (rnd : list nat) (trace : list 
       let '(rp, rnd1) := next_choice rnd in
       let '(rs, rnd2) := next_choice rnd1 in
       let '(ks, rnd3) := take 4 rnd2 in
-      match nth_mod (w_procs W) rp with
-      | None => (rev bad, rev trace)
-      | Some (proc, (oset, table)) =>
-          let selfs := match oset with
-                       | None => Ok [VDefault]
-                       | Some s => do v <- eval (w_dtla W) EVAL_FUEL (env_of W st VDefault) (subst [] None [] s0 [] s); as_set v
-                       end in
-          match selfs with
-          | Err m => (rev (("", "#@#WALKERROR process set of " ++ proc ++ ": " ++ m ++ " #@#END") :: bad), rev trace)
-          | Ok ids =>
-              match nth_mod ids rs with
-              | None => walk n' W st rnd3 trace bad
-              | Some self =>
-                  let r := env_of W st self in
-                  match e_loc r "pc" with
-                  | VStr lbl =>
-                      match lookup lbl table with
-                      | None => walk n' W st rnd3 trace bad     (* Done / a label of another process sharing the id *)
-                      | Some (gt, tt0) =>
-                          let og := run (w_dgo W) EVAL_FUEL gt r ks in
-                          let ot := run (w_dtla W) EVAL_FUEL tt0 r ks in
-                          let key := proc ++ "." ++ lbl in
-                          let bad' := if outcome_eqb og ot then bad
-                                      else match lookup key bad with
-                                           | Some _ => bad
-                                           | None => (key, describe proc lbl self st ks og ot) :: bad end in
-                          match ot with
-                          | OCommit g l _ => walk n' W (apply_commit st self g l) rnd3 (key :: trace) bad'
-                          | _ => walk n' W st rnd3 trace bad'
-                          end
-                      end
-                  | _ => walk n' W st rnd3 trace bad
+      let pick :=
+          match (if Nat.even rp then focus_candidates W st focus else []) with
+          | c :: cs => match nth_mod (c :: cs) rs with Some (pe, self) => Ok (Some (pe, self)) | None => Ok None end
+          | [] =>
+            match nth_mod (w_procs W) rp with
+            | None => Ok None
+            | Some pe => match proc_ids W st (fst (snd pe)) with
+                         | Err m => Err ("process set of " ++ fst pe ++ ": " ++ m)
+                         | Ok ids => match nth_mod ids rs with Some self => Ok (Some (pe, self)) | None => Ok None end
+                         end
+            end
+          end in
+      match pick with
+      | Err m => (rev (("", "#@#WALKERROR " ++ m ++ " #@#END") :: bad), rev trace)
+      | Ok None => walk n' W focus st rnd3 trace bad
+      | Ok (Some ((proc, (_, table)), self)) =>
+          let r := env_of W st self in
+          match e_loc r "pc" with
+          | VStr lbl =>
+              match lookup lbl table with
+              | None => walk n' W focus st rnd3 trace bad     (* Done / a label of another process sharing the id *)
+              | Some (gt, tt0) =>
+                  let og := run (w_dgo W) EVAL_FUEL gt r ks in
+                  let ot := run (w_dtla W) EVAL_FUEL tt0 r ks in
+                  let key := proc ++ "." ++ lbl in
+                  let bad' := if outcome_eqb og ot then bad
+                              else match lookup key bad with
+                                   | Some _ => bad
+                                   | None => (key, describe proc lbl self st ks og ot) :: bad end in
+                  match ot with
+                  | OCommit g l _ => walk n' W focus (apply_commit st self g l) rnd3 (key :: trace) bad'
+                  | _ => walk n' W focus st rnd3 trace bad'
                   end
               end
+          | _ => walk n' W focus st rnd3 trace bad
           end
       end
   end.
 
-Definition one_walk (n : nat) (W : wsys) (rnd : list nat) : list (string * string) * list string :=
+Definition one_walk (n : nat) (W : wsys) (focus : list string) (rnd : list nat) : list (string * string) * list string :=
   let '(r0, rnd') := take 8 rnd in
   match init_state W (w_init W) [] r0 with
-  | Ok st => walk n W st rnd' [] []
+  | Ok st => walk n W focus st rnd' [] []
   | Err m => ([("", "#@#WALKERROR Init: " ++ m ++ " #@#END")], [])
   end.
 
